@@ -114,7 +114,7 @@ The file is `known_findings.json`; nothing is added to it at run time.
 
 SEEDS_INTRO = """Each change was written by a fresh sub-agent that saw only the property text and its own scratch worktree, confirmed by
 `tools/confirm_seed.sh` (demonstration passes on the pristine tree, fails with the patch, no new failure in the pinned suite) and stored under
-`seeded/<id>/`. Five rounds, 195 stored changes. `tools/psweep.sh` applies every stored change to a scratch copy of /repo (several in parallel; `tools/seedsweep.sh`
+`seeded/<id>/`. Six rounds, 233 stored changes. `tools/psweep.sh` applies every stored change to a scratch copy of /repo (several in parallel; `tools/seedsweep.sh`
 does the same on /repo's working tree, one at a time), runs the owning check and removes the copy; at the time of writing every stored change is
 reported as VIOLATION by the quick tier of its check, with a failing input replayed on the real code. Where a check first missed a change it was
 strengthened - the generator was the gap nearly every time, an oracle clause a few times; no oracle was loosened:
@@ -141,10 +141,19 @@ strengthened - the generator was the gap nearly every time, an oracle clause a f
   the library's parser; C14 the form codec (was only in C13); C15 the three date forms as values of Last-Modified / If-(Un)Modified-Since; C18 several texts
   parsed into one Protocol / Status / Method / message object with composing in between (a stale memo); C20 weak and unquoted entity tags, Last-Modified forms.
 
-Stored patches are rebased when a `fix:` commit touches the same lines (noted in their notes.txt). Four changes are kept under `seeded/rejected/` and are not
-counted: C04-2 and C12-1-superseded became harmless through the repairs F50 / F60 (their demonstrations pass with the patch applied); C06-9 and C07-10 show only
-when parse() is called again on a state machine whose previous call raised - outside the properties' quantifier and already undefined on the unchanged tree
-(section 6.2).
+* round 6 (ids -10 .. -12): C03 every codec name the library lists and every alias, each at least twice in a consulted field (`charset*=uu''..`); C04 a second,
+  plain message on the same state machine after the composed one (chunked framing not reset between messages); C06 the Host field sent twice (RFC 7230 5.4);
+  C08 values of 40-200 octets (line-wrapping base64 helpers) and a line break in a stored value that no assigned value had; C09 parameter names in mixed letter case,
+  compared against what the caller handed in; C11 equality with an assembled URI on the left (found F64 on the unchanged tree); C12 percent-encoded octets
+  in fragment-only and query-only references; C14 message/http bodies made of line breaks, empty lines and header-like lines; C15 a private non-English
+  LC_TIME locale (built from C.utf8, activated through LOCPATH: the image has only C/POSIX) and instants handed over as aware datetime objects; C16 one element
+  whose credentials change between two compositions (a stale cache).
+
+Stored patches are rebased when a `fix:` commit touches the same lines (noted in their notes.txt). Six changes are kept under `seeded/rejected/` and are not
+counted: C04-2, C12-1-superseded and C11-11 became harmless through the repairs F50 / F60 / F64 (their demonstrations pass with the patch applied); C06-9 and C07-10
+show only when parse() is called again on a state machine whose previous call raised - outside the properties' quantifier and already undefined on the unchanged tree
+(section 6.2); C09-12 changes only the letter case of free cookie attribute names, which are case-insensitive tokens (the unchanged library lower-cases the
+parameter names of every other element itself).
 """
 
 if __name__ == '__main__':
